@@ -312,3 +312,113 @@ Definition process_ok (outs : list vout) (r : resource) (faddr : string) (obs : 
         end
     end
   else true.
+
+(* What ProcessDeposits must emit for one transaction, given ALL configured resources: no resource
+   paid - nothing; exactly one paid - [process_ok] for it; several paid - which one wins is the
+   iteration order (C19's subject), not judged here. *)
+Definition tx_ok (outs : list vout) (rs : list resource) (faddr : string) (obs : pres)
+           (nonce_seen : N) : bool :=
+  match filter (pays_bridge outs) rs with
+  | [] => match obs with NoMsg => true | _ => negb (oprets_wf outs && sats_wf outs) end
+  | [r] => process_ok outs r faddr obs nonce_seen
+  | _ => true
+  end.
+
+(* ---------------------------------------------------------------------------------------- *)
+(* Round 4 - HISTORIES on one long-lived handler.  The listener keeps ONE resources map and ONE fee
+   address for its whole life (app.go) and decodes every transaction of every block against them.
+   DecodeDepositEvent receives the Resource BY VALUE and writes to nothing reachable from it, so a
+   step of the model returns the configuration it was given.  The statement "a transaction is a
+   deposit exactly when it pays ... at least the CONFIGURED fee" is about that configuration,
+   whatever was decoded before. *)
+
+Definition config : Type := (list resource * string)%type.   (* resources in iteration order, fee address *)
+
+Record stx := { t_hash : string; t_outs : list vout }.
+
+Inductive sstep :=
+| SBlock (height : N) (txs : list stx)       (* ProcessDeposits(height) on a block of transactions *)
+| SDec (outs : list vout) (ri : nat).        (* DecodeDepositEvent(tx, resources[ri], feeAddress) *)
+
+Inductive sres :=
+| RBlock (msgs : list pres)                  (* per transaction of the block, in block order *)
+| RDec (d : dec).
+
+Section Seq.
+  Variable cv : Z -> Z.
+  Variable nf : N -> string -> N.
+
+  Definition seq_step (cfg : config) (s : sstep) : config * sres :=
+    match s with
+    | SBlock h txs =>
+        (cfg, RBlock (map (fun t => process cv nf (t_outs t) (fst cfg) (snd cfg) h (t_hash t)) txs))
+    | SDec outs ri =>
+        (cfg, RDec match nth_error (fst cfg) ri with
+                   | Some r => decode cv outs r (snd cfg)
+                   | None => NotDeposit
+                   end)
+    end.
+
+  (* the configuration after each step and what the step returned *)
+  Fixpoint seq_run (cfg : config) (steps : list sstep) : list (config * sres) :=
+    match steps with
+    | [] => []
+    | s :: rest => let '(cfg', r) := seq_step cfg s in (cfg', r) :: seq_run cfg' rest
+    end.
+End Seq.
+
+(* observation of one step of a history on the real handler.  [snap]: the handler's resources map
+   after the step, sorted by key, as (key, value's id / address / fee); [faddr']: its fee address
+   after the step. *)
+Definition snapshot : Type := list (list N * resource).
+
+Record otx := { ot_hash : string; ot_outs : list vout; ot_impl : pres; ot_nonce_seen : N }.
+
+Inductive sobs :=
+(* stray: the block yielded a message that belongs to none of its transactions, or two for one *)
+| OBlock (height : N) (txs : list otx) (stray : bool) (snap : snapshot) (faddr' : string)
+| ODec (outs : list vout) (ri : nat) (impl : dec) (snap : snapshot) (faddr' : string).
+
+Definition snap_of (rs : list resource) : snapshot := map (fun r => (r_id r, r)) rs.
+
+Definition resource_eqb (a b : resource) : bool :=
+  String.eqb (r_addr a) (r_addr b) && (r_fee a =? r_fee b) && bytes_eqb (r_id a) (r_id b).
+
+Fixpoint snap_eqb (a b : snapshot) : bool :=
+  match a, b with
+  | [], [] => true
+  | (k, r) :: a', (k', r') :: b' => bytes_eqb k k' && resource_eqb r r' && snap_eqb a' b'
+  | _, _ => false
+  end.
+
+Definition config_kept (cfg : config) (snap : snapshot) (faddr' : string) : bool :=
+  snap_eqb (snap_of (fst cfg)) snap && String.eqb (snd cfg) faddr'.
+
+(* SPECIFICATION of a history: every transaction is judged - by the per-transaction specification -
+   against the ORIGINAL configuration [cfg], wherever it stands in the history, and the handler
+   still holds that configuration after every step. *)
+Definition step_ok (cfg : config) (o : sobs) : bool :=
+  match o with
+  | OBlock h txs stray snap f' =>
+      forallb (fun t => tx_ok (ot_outs t) (fst cfg) (snd cfg) (ot_impl t) (ot_nonce_seen t)) txs &&
+      negb stray && config_kept cfg snap f'
+  | ODec outs ri impl snap f' =>
+      match nth_error (fst cfg) ri with
+      | Some r => decode_ok outs r (snd cfg) impl
+      | None => true
+      end && config_kept cfg snap f'
+  end.
+
+Definition seq_ok (cfg : config) (obs : list sobs) : bool := forallb (step_ok cfg) obs.
+
+(* the observation the MODEL produces for a history *)
+Definition obs_of (cfg : config) (nseen : N -> string -> N) (s : sstep) (x : config * sres) : sobs :=
+  match s, snd x with
+  | SBlock h txs, RBlock ms =>
+      OBlock h (map (fun tm => Build_otx (t_hash (fst tm)) (t_outs (fst tm)) (snd tm) (nseen h (t_hash (fst tm))))
+                    (combine txs ms))
+             false (snap_of (fst (fst x))) (snd (fst x))
+  | SDec outs ri, RDec d => ODec outs ri d (snap_of (fst (fst x))) (snd (fst x))
+  | SBlock h _, RDec _ => OBlock h [] true [] ""
+  | SDec outs ri, RBlock _ => ODec outs ri DecPanic [] ""
+  end.
